@@ -10,7 +10,7 @@ numbered 1..N in emission order, RunStop.num_events = those N per stream.
 from vlib.harness import Harness, register
 from vlib.symx import fork_int, goal, notrace, only_shard
 
-KINDS = ["pass-through", "key-changing", "renaming", "decimating", "routing"]
+KINDS = ["pass-through", "key-changing", "renaming", "decimating", "routing", "id_args"]
 
 
 def raw_run(prog):
@@ -71,7 +71,13 @@ def make_dispatcher(kind):
         def event(self, doc):
             self.process_event(doc, stream_name=self.raw_descriptors[doc["descriptor"]]["name"])
 
-    return [None, KeyChanging, Renaming, Decimating, Routing][kind]()
+    class IdArgs(LiveDispatcher):
+        def event(self, doc):
+            doc = dict(doc)
+            doc["data"] = {k: 2 * v for k, v in doc["data"].items()}
+            self.process_event(doc, id_args=("scaled", 2))
+
+    return [None, KeyChanging, Renaming, Decimating, Routing, IdArgs][kind]()
 
 
 def check_run(docs, expected_events):
@@ -129,21 +135,35 @@ def check_run(docs, expected_events):
 def make(P):
     L = P["L"]
 
-    def h(e1: int, e2: int, e3: int, e4: int, e5: int, n: int, kind: int, runs: int) -> str:
+    def h(e1: int, e2: int, e3: int, e4: int, e5: int, n: int, kind: int, runs: int, boom: int) -> str:
         nn = fork_int(n, 0, L)
-        prog = [fork_int(e, 0, 2) for e in [e1, e2, e3, e4, e5][:nn]]
         k = fork_int(kind, 0, len(KINDS) - 1)
+        first = fork_int(e1, 0, 2) if nn else 0
+        only_shard(k + 6 * nn + 36 * first, P)
+        prog = ([first] + [fork_int(e, 0, 2) for e in [e2, e3, e4, e5][: nn - 1]]) if nn else []
         nruns = fork_int(runs, 1, 2)
-        only_shard(k + 5 * nn + 30 * (prog[0] if prog else 0), P)
+        j = fork_int(boom, 0, nn)  # a second consumer raises on its j-th event of every run (0: never)
         with notrace():
             tags = []
             ld = make_dispatcher(k)
             out = []
+            seen = [0]
+
+            def fragile(name, doc):
+                seen[0] += 1
+                if seen[0] == j:
+                    raise RuntimeError("consumer failed")
+
             ld.subscribe(lambda name, doc: out.append((name, doc)))
+            ld.subscribe(fragile, "event")
             for r in range(nruns):
                 del out[:]
+                seen[0] = 0
                 for name, doc in raw_run(prog):
-                    ld(name, doc)
+                    try:
+                        ld(name, doc)
+                    except RuntimeError:  # what a Dispatcher with ignore_exceptions=True upstream does: log and carry on
+                        goal("consumer-raised")
                 expected = len(prog) // 2 if k == 3 else len(prog)
                 tags += check_run(list(out), expected)
                 if r == 1:
@@ -160,7 +180,7 @@ def _fns():
 
 
 register(Harness("c39_live", "C39", make, {"quick": dict(L=4, shards=16, budget_s=300, per_path_s=30), "thorough": dict(L=5, shards=32, budget_s=3000, per_path_s=30)},
-                 goals=["two-streams", "stream-with-two-events", "second-run"], functions=_fns, mode="schedule",
+                 goals=["two-streams", "stream-with-two-events", "second-run", "consumer-raised"], functions=_fns, mode="schedule",
                  symbolic="number n<=L of raw events and, per event, its raw descriptor in {primary#1, baseline, primary#2}; dispatcher in {LiveDispatcher, key-changing, renaming (stream_name), "
-                 "decimating, routing by raw stream name} subclasses; one or two runs through the same instance",
-                 out_of_bound="more than L events per run; event pages; subclasses that pass id_args/config; raw runs that are themselves invalid", require_exhaustive=True))
+                 "decimating, routing by raw stream name, explicit id_args} subclasses; one or two runs through the same instance; a second consumer raising on its j-th event (upstream carries on)",
+                 out_of_bound="more than L events per run; event pages; subclasses that pass config; raw runs that are themselves invalid", require_exhaustive=True))
